@@ -241,6 +241,54 @@ def rule_successor(ctx, M, prefix="C04"):
         ctx.ok(rule, {"river": f"+= 1 under river < {L_ - 1}", "rollover": "turn += 1; river = turn + 1", "other_writes": 0}, sample=True)
 
 
+def rule_scope_independent(ctx, M, prefix="C04"):
+    """what an evaluator deals at a position must not depend on its scope: in the iterator constructor the four
+    scope values flow only into the four start/end fields (no branch, no arithmetic, no filtering on them)."""
+    rule = prefix + ".scope-independence"
+    ctx.rule(rule, "the scope values are only copied into the iterator's start/end fields; nothing else is computed from them at construction")
+    pl = M.plumbing()
+    ev_fields = {v[0]: r for r, v in pl.items()}
+    fn = M.ctor
+    pr = P.Prov(fn)
+
+    def scope_roles(t):
+        out = set()
+        for s_ in P.walk(t):
+            if s_[0] == "field" and P.strip(s_[1]) == ("param", 1) and s_[2] in ev_fields:
+                out.add(ev_fields[s_[2]])
+        return out
+    bad = []
+    for b in sorted(fn.cfg.reachable):
+        blk = fn.blocks[b]
+        for st in blk["stmts"]:
+            if st["k"] != "assign":
+                continue
+            rv = st["rv"]
+            if any(k in rv for k in ("bin", "un")) or ("cast" in rv):
+                ops = [rv[k] for k in ("a", "b") if k in rv]
+                for o in ops:
+                    r = scope_roles(pr.operand(o))
+                    if r:
+                        bad.append((st["line"], f"computes with the scope value {sorted(r)}"))
+        t = blk["term"]
+        if t["k"] == "switch":
+            r = scope_roles(pr.operand(t["on"]))
+            if r:
+                bad.append((blk["line"], f"branches on the scope value {sorted(r)}"))
+        if t["k"] == "call":
+            for a in t["args"]:
+                r = scope_roles(pr.operand(a))
+                if r:
+                    bad.append((blk["line"], f"passes the scope value {sorted(r)} to {I.callee_path(t)}"))
+    if bad:
+        line, what = bad[0]
+        ctx.violation(rule, f"{fn.path}|{what.split('[')[0].strip().replace(' ', '-')}",
+                      f"the iterator constructor {what}: what is dealt at a position then depends on the scope, so a scoped run is no "
+                      f"longer a window of the unscoped run", fn=fn.path, file=fn.file, line=line, construct="use of a scope value at construction")
+    else:
+        ctx.ok(rule, {"ctor": fn.path, "scope_values": "copied into the start/end fields only"}, sample=True)
+
+
 def run(ctx):
     ctx.explanation = ("static: (1) write-freedom of every path to the exhausted return w.r.t. the fields its branch "
                        "conditions read, which proves 'afterwards stays exhausted' for every input (no other state exists, "
@@ -249,7 +297,7 @@ def run(ctx):
     F = ctx.facts("lib")
     M = evalmodel.get(F)
     ctx.analysed([M.deal, M.next, M.scope, M.new, M.ctor])
-    for f in (rule_idempotent, rule_plumbing, rule_successor):
+    for f in (rule_idempotent, rule_plumbing, rule_successor, rule_scope_independent):
         try:
             f(ctx, M)
         except Unrecognised as e:
